@@ -1188,6 +1188,10 @@ class Exec(object):
             lo = None if node.slice.lower is None else self.eval(node.slice.lower)
             hi = None if node.slice.upper is None else self.eval(node.slice.upper)
             st = None if node.slice.step is None else self.eval(node.slice.step)
+            if isinstance(o, Obj) and all(x is None or isinstance(x, int) for x in (lo, hi, st)):
+                m = self.find_method(o.cls, "__getitem__")
+                if m is not None:
+                    return self.call(BoundMethod(o, m), [slice(lo, hi, st)], {}, node.lineno)
             return self.getslice(o, lo, hi, st, node.lineno)
         idx = self.eval(node.slice)
         return self.getitem(o, idx, node.lineno)
@@ -1648,6 +1652,8 @@ class Exec(object):
 
     def equals(self, a, b, line):
         """Python == ; returns bool or z3 Bool."""
+        if isinstance(a, Obj) and a is b and self.frame.spec:
+            return True      # contracts compare trace records by object identity first (as list/dict comparison does)
         if isinstance(a, Obj):
             m = self.find_method(a.cls, "__eq__")
             if m is not None:
@@ -1812,6 +1818,8 @@ class Exec(object):
         return pos
 
     def getitem(self, o, idx, line):
+        if isinstance(idx, slice):
+            return self.getslice(o, idx.start, idx.stop, idx.step, line)
         if isinstance(o, (str, bytes)) and isinstance(idx, int):
             try:
                 return o[idx]
